@@ -11,7 +11,8 @@ Definition cluster_matches (cd : cdecl) (cc : ccfg) : Prop :=
   /\ cc_backs cc = build_backends (cd_id cd) 0 (cd_backs cd)
   /\ map (fun x => f_addr (fst x)) (cc_hfronts cc) ++ map t_addr (cc_tfronts cc) = map fd_addr (cd_fronts cd)
   /\ Forall (fun x => f_cluster (fst x) = cd_id cd) (cc_hfronts cc)
-  /\ Forall (fun t => t_cluster t = cd_id cd) (cc_tfronts cc).
+  /\ Forall (fun t => t_cluster t = cd_id cd) (cc_tfronts cc)
+  /\ hc_valid (cc_clu cc) = true.
 
 Lemma push_listener_clusters : forall st l, ls_clusters (push_listener st l) = ls_clusters st.
 Proof. intros st l. unfold push_listener. repeat (destruct (_ =? _)); reflexivity. Qed.
@@ -108,7 +109,8 @@ Lemma populate_cluster_exact : forall d c st st', populate_cluster d c st = Ok s
   exists cc, ls_clusters st' = ls_clusters st ++ [cc] /\ cluster_matches c cc.
 Proof.
   intros d c st st' H. unfold populate_cluster in H.
-  destruct (negb (hc_valid (build_clu c (-1)))); [discriminate|]. destruct (cd_proto c =? 1).
+  destruct (negb (hc_valid (build_clu c (-1)))) eqn:Ehc; [discriminate|]. apply negb_false_iff in Ehc.
+  destruct (cd_proto c =? 1).
   - destruct (tcp_fronts_conv _ _ _ _) as [[ts has]|e] eqn:E1; [|discriminate].
     destruct (resolve_tcp d ts st) as [[ts' st1]|e] eqn:E2; [|discriminate].
     inversion H; subst. eexists. split.
